@@ -136,49 +136,127 @@ def Respond.render (r : Respond) : Bytes :=
 /-- what the harness' plain `done`/`sync` handler produces: 200, no headers, the given body -/
 def respond (body : Bytes) : Bytes := (Respond.mk "k1_1" 200 [] body).render
 
+/-! ### scripted request handlers (middleware chain) -/
+
+/-- what one handler does, in order: call `next()`, set 200 + body on the response, keep the
+context (answer later), throw, `server.stop()`, `server.cleanup()` -/
+inductive HAct
+  | next | body (b : Bytes) | keep | throw | stop | cleanup
+deriving DecidableEq, Repr
+
+/-- one action list per handler level (`Server::use` order) -/
+abbrev HScript := List (List HAct)
+
+def nLevels : Nat := 3
+
+structure HState where
+  resp : Respond := {}
+  kept : Bool := false
+  threw : Bool := false
+  stopped : Bool := false     -- stop() or cleanup() was called: every connection is released
+  cleaned : Bool := false     -- cleanup() cleared the handler list: next() does nothing any more
+  calls : List Nat := []      -- handler levels entered, in order
+deriving DecidableEq, Repr
+
+/-- `Impl::handle(ctx, lvl)` with `d` handler levels left: enter handler `lvl` and run its
+actions; an exception skips everything that follows (in every enclosing handler too) -/
+def runChain (script : HScript) : Nat → Nat → HState → HState
+  | 0, _, st => st
+  | d + 1, lvl, st =>
+    (script.getD lvl []).foldl (fun st a =>
+      if st.threw then st else
+      match a with
+      | .next => if st.cleaned then st else runChain script d (lvl + 1) st
+      | .body b => { st with resp := { st.resp with status := 200, body := b } }
+      | .keep => { st with kept := true }
+      | .throw => { st with threw := true }
+      | .stop => { st with stopped := true }
+      | .cleanup => { st with stopped := true, cleaned := true })
+      { st with calls := st.calls ++ [lvl] }
+
+/-- a request without a script: the first handler keeps the context (answered by a later `done`) -/
+def defaultScript : HScript := [[.keep]]
+
 structure Server where
   conn : Conn := {}
   pipe : Pipe := {}
-  outstanding : List Nat := []         -- requests delivered whose Context is still alive
-  syncs : List (Nat × Respond) := []   -- request indices the handler answers inside the callback
-  cclosed : Bool := false              -- the client has closed its socket
-  halfSpec : Bool := false             -- driver only: half-close handled as the PROPERTY asks (op chalfS), not as coded
+  outstanding : List Nat := []            -- requests delivered whose Context is still alive
+  scripts : List (Nat × HScript) := []    -- what the handlers do for request i
+  cclosed : Bool := false                 -- the client has closed its socket
+  halfSpec : Bool := false                -- driver only: half-close handled as the PROPERTY asks (op chalfS), not as coded
+  poisoned : Bool := false                -- an exception left a handler and the event loop
+  hist : List PipeOp := []                -- ghost: every pipeline operation so far (`pipe = Pipe.run {} hist`)
 deriving Repr
 
-/-- the handler runs for every request event, in order -/
-def Server.deliver (s : Server) : List Ev → Server
-  | [] => s
-  | .req _ last _ :: evs =>
-    let idx := s.pipe.reqIndex
-    let pipe := s.pipe.onRequest last
-    let s' := match s.syncs.lookup idx with
-      | some r => { s with pipe := pipe.commit idx r.render }
-      | none => { s with pipe := pipe, outstanding := s.outstanding ++ [idx] }
-    s'.deliver evs
-  | _ :: evs => s.deliver evs
+/-- `commitRespond` followed by what `BufferedFd::send` does at once: a direct write, of which
+the kernel takes as much as fits (everything, for the responses that fit the socket buffer) -/
+def commitOps (p : Pipe) (i : Nat) (r : Bytes) : List PipeOp :=
+  [.commit i r, .kernel (p.handed.length + r.length + (p.resBuff.map (·.2.length)).sum)]
+
+/-- apply pipeline operations and record them -/
+def Server.emit (s : Server) (ops : List PipeOp) : Server :=
+  { s with pipe := s.pipe.run ops, hist := s.hist ++ ops }
+
+structure Delivered where
+  idx : Nat
+  req : Req
+  calls : List Nat
+deriving Repr
+
+/-- one request goes through the handler chain: `close_index`/`req_index` bookkeeping, the
+handlers, then the local `sp_ctx` is released — which commits unless a handler kept the context -/
+def Server.handleReq (s : Server) (last : Bool) : Server × HState :=
+  let idx := s.pipe.reqIndex
+  let h := runChain ((s.scripts.lookup idx).getD defaultScript) nLevels 0 {}
+  let ops := PipeOp.req last :: ((if h.stopped then [PipeOp.drop] else []) ++
+             (if h.kept then [] else commitOps s.pipe idx h.resp.render))
+  let s1 := s.emit ops
+  (if h.kept then { s1 with outstanding := s1.outstanding ++ [idx] } else s1, h)
+
+/-- the receive loop's view of the events of one `recv`: `consumed` bytes of `whole` were parsed
+so far. A handler that throws or stops the server ends the loop (patches/C12-05). Returns the
+delivered requests and "the loop was left early". -/
+def Server.walk (whole : Bytes) : Server → Nat → List Ev → Server × List Delivered × Bool
+  | s, _, [] => (s, [], false)
+  | s, c, .parsed n _ :: evs => Server.walk whole s (c + n) evs
+  | s, c, .req r last _ :: evs =>
+    let (s1, h) := s.handleReq last
+    let d : Delivered := ⟨s.pipe.reqIndex, r, h.calls⟩
+    if h.threw then
+      -- the exception leaves onTcpReceived: what was not parsed stays in the receive buffer
+      ({ s1 with poisoned := true, conn := { ps := PState.init, buf := whole.drop c, dead := false, closed := last } }, [d], true)
+    else if h.stopped then
+      ({ s1 with conn := { s1.conn with dead := true, buf := [] } }, [d], true)
+    else if last then
+      -- `if (is_last_request) { buff.hasReadAll(); break; }`
+      ({ s1 with conn := { s1.conn with closed := true, buf := [] } }, [d], false)
+    else
+      let (s2, ds, e) := Server.walk whole s1 c evs
+      (s2, d :: ds, e)
 
 /-- loop quiescent after an op: the client has read everything the kernel could take; if
 anything was written and the buffer drained, send-complete fires -/
 def Server.quiesce (s : Server) (writtenBefore : Nat) : Server :=
-  let p := s.pipe.kernel s.pipe.handed.length
-  if p.written.length > writtenBefore && p.sent == p.handed.length then { s with pipe := p.sendComplete }
-  else { s with pipe := p }
+  let s1 := s.emit [.kernel s.pipe.handed.length]
+  if s1.pipe.written.length > writtenBefore && s1.pipe.sent == s1.pipe.handed.length then s1.emit [.sendComplete]
+  else s1
 
 /-- client writes a segment; loop runs until quiescent -/
-def Server.seg (cfg : Cfg) (s : Server) (bytes : Bytes) : Server × Out :=
-  if !s.pipe.valid then (s, ⟨s.conn, [], .ok⟩)
+def Server.seg (cfg : Cfg) (s : Server) (bytes : Bytes) : Server × List Delivered × Status :=
+  if !s.pipe.valid then (s, [], .ok)
   else
     let o := recv cfg isLast s.conn bytes
-    let s1 := Server.deliver { s with conn := o.conn } o.evs
-    if o.conn.dead then
-      -- responses answered inside the callback were written before the parser failed
-      ({ s1 with pipe := (s1.pipe.kernel s1.pipe.handed.length).disconnect }, o)
-    else (s1.quiesce s.pipe.written.length, o)
+    let (s1, ds, early) := Server.walk (s.conn.buf ++ bytes) { s with conn := o.conn } 0 o.evs
+    if s1.poisoned then (s1.emit [.kernel s1.pipe.handed.length], ds, .threw)   -- no loop pass after the exception
+    else if !early && o.conn.dead then
+      -- parser failure: responses answered inside the callback were written before the connection is dropped
+      (s1.emit [.kernel s1.pipe.handed.length, .drop], ds, o.status)
+    else (s1.quiesce s.pipe.written.length, ds, o.status)
 
 /-- the handler finishes request `i` later (its Context is released); `none` = not outstanding -/
 def Server.done (s : Server) (i : Nat) (r : Respond) : Option Server :=
   if s.outstanding.contains i then
-    let s1 := { s with outstanding := s.outstanding.filter (· != i), pipe := s.pipe.commit i r.render }
+    let s1 := { s.emit (commitOps s.pipe i r.render) with outstanding := s.outstanding.filter (· != i) }
     some (s1.quiesce s.pipe.written.length)
   else none
 
@@ -187,22 +265,40 @@ def Server.done (s : Server) (i : Nat) (r : Respond) : Option Server :=
 commit's write is attempted first and the client closes without reading. -/
 def Server.cclose (s : Server) (pre : Option (Nat × Respond)) (closeFirst : Bool) : Option Server :=
   if s.cclosed then none else
-  let gone (p : Pipe) : Server := { s with cclosed := true, pipe := p.peerClosed, conn := { s.conn with dead := true, buf := [] } }
+  let gone (s' : Server) : Server := { s'.emit [.drop] with cclosed := true, conn := { s.conn with dead := true, buf := [] } }
   match pre with
-  | none => some (gone s.pipe)
+  | none => some (gone s)
   | some (i, r) =>
     if s.outstanding.contains i then
-      let p0 := if closeFirst then s.pipe.writeError else s.pipe
-      let s' := gone (p0.commit i r.render)
-      some { s' with outstanding := s.outstanding.filter (· != i) }
+      let s0 := if closeFirst then s.emit [.writeError] else s
+      some { gone (s0.emit (commitOps s0.pipe i r.render)) with outstanding := s.outstanding.filter (· != i) }
     else none
 
 /-- the client shuts down its sending side only and keeps reading -/
 def Server.chalf (s : Server) : Option Server :=
   if s.cclosed then none
-  else some { s with pipe := s.pipe.step .halfClose, conn := { s.conn with dead := true, buf := [] } }
+  else some { s.emit [.halfClose] with conn := { s.conn with dead := true, buf := [] } }
 
 /-- every further write on the server side of the connection fails -/
-def Server.wfail (s : Server) : Server := { s with pipe := s.pipe.writeError }
+def Server.wfail (s : Server) : Server := s.emit [.writeError]
+
+/-- everything that can happen to one connection of the server, handlers included: the script of
+a request says what each handler of the chain does when that request arrives -/
+inductive SrvOp
+  | script (i : Nat) (sc : HScript)
+  | seg (bytes : Bytes)
+  | done (i : Nat) (r : Respond)
+  | cclose (pre : Option (Nat × Respond)) (closeFirst : Bool)
+  | chalf
+  | wfail
+deriving Repr
+
+def Server.step (s : Server) : SrvOp → Server
+  | .script i sc => if (s.scripts.lookup i).isSome then s else { s with scripts := (i, sc) :: s.scripts }
+  | .seg bytes => if s.poisoned then s else (s.seg Cfg.fixed bytes).1
+  | .done i r => if s.poisoned then s else (s.done i r).getD s
+  | .cclose pre cf => if s.poisoned then s else (s.cclose pre cf).getD s
+  | .chalf => if s.poisoned then s else (s.chalf).getD s
+  | .wfail => if s.poisoned then s else s.wfail
 
 end Tbox.C12
